@@ -271,8 +271,29 @@ def mapRoots (umap : TreeMap Int Int) : Roots → Except Err Roots
   | .none => .ok (.list [])
   | r => r.mapE (mapNode umap)
 
+/-- the test `_load_pickle` runs for `levels=True` BEFORE declaring anything: every
+`(var, level)` of the file is compatible with the manager — a declared variable is at that
+level, an undeclared one finds the level free (or carrying its own name) -/
+def levelsCompatible (t : Tbl) (vs : List (String × Nat)) : Bool :=
+  vs.all fun (var, i) =>
+    match t.vars[var]? with
+    | some j => j == i
+    | none =>
+      match t.l2v[i]? with
+      | none => true
+      | some v' => v' == var
+
+/-- `sorted(var2level.values()) == list(range(n))`: the levels of the file are a permutation
+of `0..n-1` -/
+def levelsPermutation (vs : List (String × Nat)) : Bool :=
+  sortNat (vs.map (·.2)) == List.range vs.length
+
 /-- `dd.bdd.BDD.load(filename, levels)` on the content of the file -/
 def loadPickle (f : PickleFile) (levels : Bool) : M Roots := fun m =>
+  -- `if levels:` refuse before declaring anything (a refusal half-way would leave a gap):
+  -- the file's own levels, then each pair against the manager
+  if levels && !levelsPermutation f.vars then (.error .value, m) else
+  if levels && !levelsCompatible m.tbl f.vars then (.error .value, m) else
   match loadVars levels f.vars.length f.vars [] m with
   | (.error e, m1) => (.error e, m1)
   | (.ok lm, m1) =>
@@ -551,31 +572,78 @@ def Roots.rebuild : Roots → List Int → Roots
   | .list _, us => .list us
   | .dict d, us => .dict ((d.map (·.1)).zip us)
 
-/-- `_copy.load_json(file_name, bdd, load_order)` for a `dd.autoref.BDD`, on the
-content of the file.  The returned references are live `Function`s: each holds one
-reference; every other temporary has been released when the call returns.
+/-- the node lines of `_load_json` with the shelf as it is when the loop is left — also when it
+is left by an exception (`makeNodes` is its successful run) -/
+def makeNodesE (loadOrder : Bool) (varAtLevel : List (Nat × String)) :
+    List JLine → List (Nat × Int) → Mgr → (Except Err Unit × List (Nat × Int) × Mgr)
+  | [], cache, m => (.ok (), cache, m)
+  | ln :: rest, cache, m =>
+    match makeNode loadOrder varAtLevel ln cache m with
+    | (.error e, m1) => (.error e, cache, m1)
+    | (.ok cache1, m1) => makeNodesE loadOrder varAtLevel rest cache1 m1
 
-`old_reordering = bdd.configure(reordering=False)` binds the *dict* that `configure`
-returns, so `bdd.configure(reordering=old_reordering)` at the end passes a non-empty
-dict (truthy): after `load_order=True` dynamic reordering is always ENABLED. -/
-def loadJson (f : JsonFile) (loadOrder : Bool) : M Roots := do
-  if loadOrder then
-    let _ ← configure (some false)
-  -- line `level_of_var`
+/-- the line `level_of_var` (`_store_line`): `bdd.declare(*order)`, and `bdd.reorder(order)`
+when the order is to be loaded -/
+def jsonHeader (f : JsonFile) (loadOrder : Bool) : M Unit := do
   declare (f.levelOfVar.map (·.1))
-  let varAtLevel := f.levelOfVar.foldl (fun acc (v, l) => (l, v) :: acc) []
   if loadOrder then
     reorder (some (f.levelOfVar.map fun (v, l) => (v, (l : Int))))
-  -- node lines
-  let cache ← makeNodes loadOrder varAtLevel f.nodes []
-  -- `roots = {name: _node_from_int(k, …)}` / `[_node_from_int(k, …) …]`
+
+/-- `roots = {name: _node_from_int(k, …)}` / `[_node_from_int(k, …) …]` -/
+def jsonRoots (f : JsonFile) (cache : List (Nat × Int)) : M (List Int) := do
   let ks ← (match f.roots with
     | .none => M.throw .key      -- `context['roots']` missing
     | r => pure r.values)
-  let us ← rootsFromInts cache ks
-  let roots := f.roots.rebuild us
-  -- on an exception below the `Function`s in `roots` die with the frame
-  fun m =>
+  rootsFromInts cache ks
+
+/-- the body of the `try:` of `_load_json`: the line `level_of_var`, the node lines, the
+conversion of the roots.  Returns the roots (live `Function`s) or the exception, and in both
+cases the shelf. -/
+def jsonTry (f : JsonFile) (loadOrder : Bool) :
+    Mgr → (Except Err (List Int) × List (Nat × Int) × Mgr) := fun m =>
+  let varAtLevel := f.levelOfVar.foldl (fun acc (v, l) => (l, v) :: acc) []
+  match jsonHeader f loadOrder m with
+  | (.error e, m1) => (.error e, [], m1)
+  | (.ok _, m1) =>
+    match makeNodesE loadOrder varAtLevel f.nodes [] m1 with
+    | (.error e, cache, m2) => (.error e, cache, m2)
+    | (.ok _, cache, m2) =>
+      match jsonRoots f cache m2 with
+      | (.error e, m3) => (.error e, cache, m3)
+      | (.ok us, m3) => (.ok us, cache, m3)
+
+/-- `except BaseException:` of `_load_json`: `for uid in cache: u = _node_from_int(…);
+bdd.decref(u, _direct=True)` — the references `_make_node` took are given back.  As in
+`releaseLoop` the loop variable keeps the previous `Function` alive until it is rebound. -/
+def releaseFailed (cache : List (Nat × Int)) :
+    List (Nat × Int) → Option Int → Mgr → (Except Err Unit × Option Int × Mgr)
+  | [], prev, m => (.ok (), prev, m)
+  | (k, _) :: rest, prev, m =>
+    match nodeFromInt cache (k : Int) m with
+    | (.error e, m1) => (.error e, prev, m1)
+    | (.ok u, m1) =>
+      let m2 := dropOpt prev m1
+      match decref u m2 with
+      | (.error e, m3) => (.error e, some u, m3)
+      | (.ok _, m3) => releaseFailed cache rest (some u) m3
+
+/-- what `_load_json` does when the `try` block is left: by an exception — `except
+BaseException:` releases the shelf's references and re-raises (with `load_order=True`
+reordering then stays switched off: `configure` is not reached) — or normally: the release loop
+with its assertions, `assert_consistent`, `configure(reordering=old_reordering)`.
+(The temporaries of a failing frame die when the exception is dropped — after the handler in
+Python, before it here: the counts commute.) -/
+def jsonFinish (f : JsonFile) (loadOrder : Bool) :
+    (Except Err (List Int) × List (Nat × Int) × Mgr) → (Except Err Roots × Mgr)
+  | (.error e, cache, m1) =>
+    -- `except BaseException: … raise`
+    let (r, last, m2) := releaseFailed cache cache none m1
+    match r with
+    | .ok _ => (.error e, dropOpt last m2)
+    | .error e' => (.error e', dropOpt last m2)
+  | (.ok us, cache, m) =>
+    let roots := f.roots.rebuild us
+    -- on an exception below the `Function`s in `roots` die with the frame
     let (r, last, m1) := releaseLoop loadOrder cache cache none m
     let fin : M Unit := do
       liftE r
@@ -585,6 +653,18 @@ def loadJson (f : JsonFile) (loadOrder : Bool) : M Roots := do
     match fin m1 with
     | (.ok _, m2) => (.ok roots, dropOpt last m2)
     | (.error e, m2) => (.error e, dropList us (dropOpt last m2))
+
+/-- `_copy.load_json(file_name, bdd, load_order)` for a `dd.autoref.BDD`, on the
+content of the file.  The returned references are live `Function`s: each holds one
+reference; every other temporary has been released when the call returns.
+
+`old_reordering = bdd.configure(reordering=False)` binds the *dict* that `configure`
+returns, so `bdd.configure(reordering=old_reordering)` at the end passes a non-empty
+dict (truthy): after a successful `load_order=True` dynamic reordering is always ENABLED. -/
+def loadJson (f : JsonFile) (loadOrder : Bool) : M Roots := do
+  if loadOrder then
+    let _ ← configure (some false)
+  fun m => jsonFinish f loadOrder (jsonTry f loadOrder m)
 
 /-- `del` of the `Function`s returned by a load -/
 def dropRoots (r : Roots) : M Unit := fun m => (.ok (), dropList r.values m)
